@@ -164,7 +164,7 @@ def worker_main(argv):
     faulthandler.enable()
     cid, shard, nshards, tier, seed, sandbox_dir, out = argv
     shard, nshards, seed = int(shard), int(nshards), int(seed)
-    mem = int(os.environ.get('VERIF_RLIMIT_AS', str(6 << 30)))
+    mem = int(os.environ.get('VERIF_RLIMIT_AS', str(3 << 30)))
     resource.setrlimit(resource.RLIMIT_AS, (mem, mem))
     sys.setrecursionlimit(1000)
     from lib import sandbox
